@@ -10,9 +10,9 @@
      tsub / outer_locals = the token substitutions and the local names of the evaluation context of the production
            that contains the block (EvalContext::get_token_subst);
      outer_last = ctx.is_last_iteration of the ENCLOSING pass (its can_guess is the negation).
-   Positions are usize in the code; `cur_position += size` is unchecked (finding F62): the model makes the overflow
-   the explicit outcome BPanic.  `size.unwrap()` on an unsized encoding is BPanic as well (resolve_encoding only
-   returns sized encodings).  The labels map (a HashMap<String, Value>) is an association list with unique keys;
+   Positions are usize in the code; `cur_position.checked_add(size)` (since the repair of finding F62) makes the overflow
+   an error.  `size.unwrap()` on an unsized encoding is the outcome BPanic (resolve_encoding only returns sized
+   encodings).  The labels map (a HashMap<String, Value>) is an association list with unique keys;
    the only iteration over it (`for (name, value) in labels.iter() { set_local }`) is insensitive to order because
    set_local is keyed by name, so the list itself is handed to match_resolve as the locals.
    is_first_iteration is set in the inner context but never read by resolve_encoding (only resolve_instruction reads
@@ -175,7 +175,7 @@ Fixpoint resolve_nodes (first last : bool) (ns : list anode) (pos : Z) (res : bi
       | EOk (Some enc) =>
         match bsz enc, bsz res with
         | Some size, Some rsize =>
-          if pos + Z.of_N size >? usize_max then BPanic
+          if pos + Z.of_N size >? usize_max then BErr          (* cur_position.checked_add(size): "value is out of supported range" *)
           else resolve_nodes first last r (pos + Z.of_N size) (concat res rsize enc size) unstable ls
         | _, _ => BPanic
         end
